@@ -12,7 +12,7 @@ Definition parse_via_param (s : bytes) : res via_param :=
   match split_byte ";"%char s with
   | [] => Err
   | t0 :: ps =>
-      match fields t0 with
+      match fields_go t0 with
       | [proto; sentby] =>
           match split_byte "/"%char proto with
           | [n; v; t] =>
@@ -152,7 +152,7 @@ Definition fromto_host (f : fromto) : option bytes :=
 (* ---- CSeq ---- *)
 Record cseq := { cs_seq : Z; cs_method : bytes }.
 Definition parse_cseq (s : bytes) : res cseq :=
-  match fields s with
+  match fields_go s with
   | [n; m] => match atoi n with Some z => Ok {| cs_seq := z; cs_method := m |} | None => Err end
   | _ => Err
   end.
